@@ -68,12 +68,12 @@ Definition ex_ops : list mop :=
     OpRequire (compile_time_args mangle_simple (MPlain [txt "empty"]) (Some IStar));
     OpDefmacro (txt "own-mac") 9 ].
 Example ex_compiles : compile_pass mangle_simple ex_env ex_ops []
-  = inr [(txt "al", 1); (txt "zed", 3); (txt "sub.s1", 4); (txt "src.m_a", 1); (txt "src.zed", 3); (txt "own_mac", 9)].
+  = inr [(txt "al", 1); (txt "zed", 3); (txt "sub.s1", 4); (txt "src.m_a", 1); (txt "src._hid", 2); (txt "src.zed", 3); (txt "own_mac", 9)].
 Proof. vm_compute. reflexivity. Qed.
 (* the star-require of module "empty" transfers nothing, so no run-time call is emitted for it *)
 Example ex_emits : map (emits mangle_simple ex_env) ex_ops = [true; true; true; false; true].
 Proof. vm_compute. reflexivity. Qed.
 Example ex_mirror :
   run_time_args (emitted_call mangle_simple (MRel 2 [txt "a-b"; txt "c"]) (Some (IAs (txt "my-al"))) (txt "pkg.mod"))
-  = Some ({| ca_module := txt "..a_b.c"; ca_assignments := AExports; ca_prefix := txt "my_al" |}, txt "pkg.mod").
+  = Some ({| ca_module := txt "..a_b.c"; ca_assignments := AAll; ca_prefix := txt "my_al" |}, txt "pkg.mod").
 Proof. vm_compute. reflexivity. Qed.
